@@ -207,6 +207,27 @@ def opWrap (plan : Bool) (msuf : String) (st : St) : Except Err St :=
 def stripSuffix (s suf : String) : String :=
   if suf != "" && s.endsWith suf then (String.ofList (s.toList.take (s.length - suf.length))) else s
 
+/-- `stripPrefix? p s`: `s` without its prefix `p`, if it has it -/
+def stripPrefix? : List Char → List Char → Option (List Char)
+  | [], s => some s
+  | _ :: _, [] => none
+  | p :: ps, c :: cs => if p = c then stripPrefix? ps cs else none
+
+/-- remove the first occurrence of the (non-empty) pattern -/
+def dropFirstOcc (pat : List Char) : List Char → List Char
+  | [] => []
+  | c :: cs =>
+    match stripPrefix? pat (c :: cs) with
+    | some r => r
+    | none => c :: dropFirstOcc pat cs
+
+/-- `replace_last(s, old, '')` of `DependencyTransformation.rename_imports` (`s.rfind(old)`, cut that occurrence out):
+the last occurrence of `old` in `s` is the first occurrence of the reversed pattern in the reversed string -/
+def replaceLastL (s old : List Char) : List Char :=
+  if old = [] then s else (dropFirstOcc old.reverse s.reverse).reverse
+
+def replaceLast (s old : String) : String := String.ofList (replaceLastL s.toList old.toList)
+
 /-- `derive_module_name` (lower-case names) -/
 def deriveModName (suf msuf : String) (m : String) : String :=
   let m := stripSuffix m msuf
@@ -225,6 +246,24 @@ def depKernels (suf : String) (st : St) : List Nm :=
   (processed st).filter (fun n => !n.loc.endsWith suf &&
     match findDef st.defs n with | some d => !d.driver | none => false)
 
+/-- calls and imports of a processed routine `u` (not skipped by the idempotence test): the call gets the suffix, the
+module named in the import is renamed by `derive_module_name`; a callee of the same module stays in `u`'s module.
+`rename_imports`: the renamed call name, with the last occurrence of the suffix cut out (`replace_last`), must be a
+target for the import to be renamed; otherwise `USE s, ONLY: l` stays and the renamed call has no import -/
+def depRef (suf : String) (dm newScope : String → String) (u r : Nm) : Nm :=
+  match r with
+  | .proc s l => if s == "" then .proc "" (l ++ suf)
+                 else if s == u.scope then .proc (newScope s) (l ++ suf)
+                 else if replaceLast (l ++ suf) suf == l then .proc (dm s) (l ++ suf) else .proc "" (l ++ suf)
+  | .mod m => .mod m
+
+/-- `rekey_item_cache` after `DependencyTransformation`: `deleted_keys` = the entries whose unit was removed from a renamed
+module; the scope / name update skips them (`… and key not in deleted_keys`), so they keep their old name and are
+dropped by the rebuild -/
+def depCache (dead : Nm → Bool) (renD : Nm → Nm) (cache : List (Nm × Nm)) : List (Nm × Nm) :=
+  let deleted := (cache.filter (fun e => dead e.2)).map (·.2)
+  rekey (cache.map (fun e => (e.1, if dead e.2 then e.2 else renD e.2))) deleted
+
 def opDep (plan : Bool) (suf msuf : String) (st : St) : Except Err St :=
   if plan then rediscover st else
   let P := processed st
@@ -238,10 +277,7 @@ def opDep (plan : Bool) (suf msuf : String) (st : St) : Except Err St :=
     | .mod m => .mod (newScope m)
   -- calls and imports of a processed routine `u` (not skipped by the idempotence test): the call gets the suffix, the
   -- module named in the import is renamed by `derive_module_name`; a callee of the same module stays in `u`'s module
-  let renR : Nm → Nm → Nm := fun u r => match r with
-    | .proc s l => if s == "" then .proc "" (l ++ suf)
-                   else if s == u.scope then .proc (newScope s) (l ++ suf) else .proc (dm s) (l ++ suf)
-    | .mod m => .mod m
+  let renR : Nm → Nm → Nm := depRef suf dm newScope
   let skipped : Nm → Bool := fun u => u.loc.endsWith suf &&
     match findDef st.defs u with | some d => !d.driver | none => false
   -- inactive routines of renamed modules are removed from the module
@@ -250,8 +286,7 @@ def opDep (plan : Bool) (suf msuf : String) (st : St) : Except Err St :=
   let defs := (st.defs.filter (fun d => !dead d.name)).map (fun d =>
     let d := if d.name ∈ P && !skipped d.name then { d with refs := d.refs.map (renR d.name) } else d
     { d with name := renD d.name })
-  let deleted := (st.cache.filter (fun e => dead e.2)).map (·.2)
-  let cache := rekey (st.cache.map (fun e => (e.1, if dead e.2 then e.2 else renD e.2))) deleted
+  let cache := depCache dead renD st.cache
   let st1 := { st with defs := defs, cache := cache, seeds := renSeeds renD st.seeds }
   rediscover (reread st1 files)
 
